@@ -37,11 +37,13 @@ func (db *DB) Backup(path string) error {
 		}
 	}
 	db.mu.RUnlock()
+	verifYield("backup.captured")
 
 	srcFS := db.opts.FileSystem
 	dstFS := fs.Sub(db.opts.rootFS, path)
 
 	for _, seg := range segments {
+		verifYield("backup.copy")
 		name := segmentName(seg.id, seg.sequenceID)
 		mode := os.FileMode(0640)
 		srcFile, err := srcFS.OpenFile(name, os.O_RDONLY, mode)
@@ -72,6 +74,7 @@ func (db *DB) Backup(path string) error {
 		}
 	}
 
+	verifYield("backup.lock")
 	if err := touchFile(dstFS, lockName); err != nil {
 		return err
 	}
